@@ -839,6 +839,55 @@ impl Cms {
 }
 
 /// Finds `needle` in `hay` (first occurrence).
+/// The CMS object `cms_der` (as `Cms::encode` or the library writes it) with
+/// its *unsigned outer layers* in BER dress, the way streaming encoders emit
+/// them; every signed part (signed attributes, certificates, CRLs) and the
+/// content octets stay as they are, so whatever verified before still does.
+/// style 1: indefinite lengths for ContentInfo, its [0], SignedData,
+/// encapContentInfo and the eContent [0]; style 2: the same plus the eContent
+/// OCTET STRING in constructed form (two segments, indefinite); style 3:
+/// definite but non-minimal (long-form) lengths on those layers.
+pub fn ber_outer_framing(cms_der: &[u8], style: u8) -> Result<Vec<u8>, String> {
+    let root = parse_exact(cms_der).map_err(|e| e.0)?;
+    let wrap = |tag: u8, content: &[u8]| -> Vec<u8> {
+        let mut v = vec![tag];
+        if style == 3 {
+            v.extend_from_slice(&[0x84, (content.len() >> 24) as u8, (content.len() >> 16) as u8, (content.len() >> 8) as u8, content.len() as u8]);
+            v.extend_from_slice(content);
+        } else {
+            v.push(0x80);
+            v.extend_from_slice(content);
+            v.extend_from_slice(&[0, 0]);
+        }
+        v
+    };
+    let ct = root.kids().first().ok_or("ContentInfo without content type")?;
+    let sd = root.get(&[1, 0]).ok_or("ContentInfo without SignedData")?;
+    let mut sd_out = Vec::new();
+    for (i, k) in sd.kids().iter().enumerate() {
+        if i == 2 {
+            // encapContentInfo
+            let ect = k.kids().first().ok_or("encapContentInfo without type")?;
+            let oct = k.get(&[1, 0]).ok_or("encapContentInfo without eContent")?;
+            let content = oct.prim_bytes().ok_or("eContent is not a primitive OCTET STRING")?;
+            let econtent = if style == 2 {
+                let cut = content.len() / 2;
+                octets_constructed(&[content[..cut].to_vec(), content[cut..].to_vec()], true)
+            } else {
+                octets(content)
+            };
+            let mut enc = ect.raw(cms_der).to_vec();
+            enc.extend_from_slice(&wrap(0xA0, &econtent));
+            sd_out.extend_from_slice(&wrap(0x30, &enc));
+        } else {
+            sd_out.extend_from_slice(k.raw(cms_der));
+        }
+    }
+    let mut ci = ct.raw(cms_der).to_vec();
+    ci.extend_from_slice(&wrap(0xA0, &wrap(0x30, &sd_out)));
+    Ok(wrap(0x30, &ci))
+}
+
 pub fn find_sub(hay: &[u8], needle: &[u8]) -> Option<usize> {
     if needle.is_empty() || needle.len() > hay.len() {
         return None;
